@@ -2,6 +2,7 @@ package checks
 
 import (
 	"fmt"
+	"runtime"
 	"strings"
 	"time"
 
@@ -87,6 +88,7 @@ func c02(r *ev.Result, tier string) {
 	/* Payload enumeration: each payload is entered once before the shell
 	attaches and once after, on every writer kind. */
 	n := 0
+	defer gcQuiet()()
 	payloads := c02Payloads(isQuick(tier))
 	/* Sizes around every power of two up to 1 MiB, entered the way Ctrl+I
 	enters its payload (through opshell.ChanWriter). */
@@ -114,16 +116,11 @@ func c02(r *ev.Result, tier string) {
 			hist := []bworld.Event{
 				{Op: "line"}, {Op: "start", Spec: 0}, {Op: "admit", A: 0, Dir: "input"}, {Op: "line"}, {Op: "line"},
 			}
-			w, _, err := bworld.RunHistory(p, hist, nil, nil)
-			if nil != err {
-				ev.Broken("payload run: %s", err)
-			}
-			w.Close()
 			n++
-			for _, v := range w.Viols {
-				if "C02" != v.Prop {
-					continue
-				}
+			if 0 == n%16 {
+				runtime.GC()
+			}
+			for _, v := range seqRun(p, hist, "C02") {
 				pp := *p
 				if len(pp.LinePayload) > 64 {
 					/* Keep artefacts small; the class is in the signature. */
